@@ -48,7 +48,23 @@ func runW2(c *Ctx, s *Sink) {
 		s.Undecided(nil, "pkg/obiformats.WriteJSON:framing", 0, "function not found")
 	} else {
 		info := p.TypesInfo
-		// opening
+		// opening: '[' must be written before any goroutine that sends chunks (a formatter) is started;
+		// the goroutine that receives and writes them may be started earlier
+		defs := collectDefs(info, fd)
+		isFormatter := func(g *ast.GoStmt) bool {
+			lit := localClosure(info, defs, g.Call.Fun)
+			if lit == nil {
+				return true // unknown target: be conservative
+			}
+			sends := false
+			ast.Inspect(lit.Body, func(n ast.Node) bool {
+				if _, ok := n.(*ast.SendStmt); ok {
+					sends = true
+				}
+				return true
+			})
+			return sends
+		}
 		openPos, firstGo := token.NoPos, token.NoPos
 		for _, st := range fd.Body.List {
 			switch x := st.(type) {
@@ -59,13 +75,12 @@ func runW2(c *Ctx, s *Sink) {
 					}
 				}
 			case *ast.GoStmt:
-				// goroutines that format batches: launched through a local function value
-				if _, isIdent := x.Call.Fun.(*ast.Ident); isIdent && firstGo == token.NoPos {
+				if isFormatter(x) && firstGo == token.NoPos {
 					firstGo = x.Pos()
 				}
 			case *ast.ForStmt:
 				ast.Inspect(x, func(n ast.Node) bool {
-					if g, ok := n.(*ast.GoStmt); ok && firstGo == token.NoPos {
+					if g, ok := n.(*ast.GoStmt); ok && firstGo == token.NoPos && isFormatter(g) {
 						firstGo = g.Pos()
 					}
 					return true
@@ -162,6 +177,8 @@ func runW2(c *Ctx, s *Sink) {
 		s.Fail(nil, key, fd.Pos(), "the CSV header is not written under a condition on the batch number")
 	case !isOrderZeroTest(info, hdr.Cond):
 		s.Fail(nil, key, hdr.Pos(), "the CSV header is written under '"+types.ExprString(hdr.Cond)+"' instead of exactly for batch 0: the header is missing, repeated, or depends on the content of the batch")
+	case earlyReturn(fd.Body, hdr.Pos()) != token.NoPos:
+		s.Fail(nil, key, earlyReturn(fd.Body, hdr.Pos()), "FormatCVSBatch can return before the header test: when the batch that must carry the header (number 0) takes that exit — an empty first batch — the CSV output has no header line")
 	case firstRec != token.NoPos && hdr.Pos() > firstRec:
 		s.Fail(nil, key, hdr.Pos(), "the header is written after the records of the batch")
 	default:
@@ -242,4 +259,19 @@ func isOrderZeroTest(info *types.Info, cond ast.Expr) bool {
 		return exact && v == 0
 	}
 	return (isOrder(be.X) && isZero(be.Y)) || (isOrder(be.Y) && isZero(be.X))
+}
+
+// earlyReturn: a return statement (outside function literals) positioned before pos.
+func earlyReturn(body *ast.BlockStmt, pos token.Pos) token.Pos {
+	found := token.NoPos
+	ast.Inspect(body, func(n ast.Node) bool {
+		if _, ok := n.(*ast.FuncLit); ok {
+			return false
+		}
+		if r, ok := n.(*ast.ReturnStmt); ok && r.Pos() < pos && found == token.NoPos {
+			found = r.Pos()
+		}
+		return true
+	})
+	return found
 }
